@@ -80,6 +80,10 @@ static std::string case_json(const Case &c) {
 }
 static bool gn_unsupported(const KA &ka) { return ka.alg == JWT_ALG_ES256K || ka.k->crv == "secp256k1"; }
 
+// mode bit 2 (value 4): builder and checker get their key from a callback (the key alone when it names its algorithm, key and algorithm otherwise)
+struct KeyCtx { const jwk_item_t *item; jwt_alg_t alg; void *inner; };
+static int key_cb(jwt_t *, jwt_config_t *c) { KeyCtx *x = (KeyCtx *)c->ctx; c->key = x->item; if (x->alg != JWT_ALG_NONE) c->alg = x->alg; return 0; }
+static int key_then_read_cb(jwt_t *jwt, jwt_config_t *c) { KeyCtx *x = (KeyCtx *)c->ctx; c->key = x->item; if (x->alg != JWT_ALG_NONE) c->alg = x->alg; jwt_config_t inner = *c; inner.ctx = x->inner; return read_cb(jwt, &inner); }
 static std::string run_case(Case &c, bool *short_rs = nullptr) {
   CUR = c; const KA &ka = CELLS[c.cell];
   J hdr = J::parse(c.header_json), clm = J::parse(c.claims_json);
@@ -87,6 +91,9 @@ static std::string run_case(Case &c, bool *short_rs = nullptr) {
   set_provider(c.sprov); set_now((time_t)c.now);
   jwt_builder_t *b = jwt_builder_new();
   const LKey &priv = lkey(*ka.k, ka.attr, true);
+  KeyCtx bkx{priv.item, ka.attr.empty() ? ka.alg : JWT_ALG_NONE, nullptr};
+  if (c.mode & 4) { if (jwt_builder_setcb(b, key_cb, &bkx)) { jwt_builder_free(b); return "setcb-refused"; } }
+  else
   if (jwt_builder_setkey(b, ka.attr.empty() ? ka.alg : JWT_ALG_NONE, priv.item)) { jwt_builder_free(b); return "setkey-refused-admissible-pair"; }
   jwt_builder_enable_iat(b, c.iat); jwt_builder_time_offset(b, JWT_CLAIM_NBF, c.nbf_off); jwt_builder_time_offset(b, JWT_CLAIM_EXP, c.exp_off);
   std::string bad;
@@ -126,11 +133,14 @@ static std::string run_case(Case &c, bool *short_rs = nullptr) {
   set_provider(c.vprov);
   jwt_checker_t *ch = jwt_checker_new(); RdCtx rc; rc.header = mh; rc.claims = mc;
   const LKey &pub = lkey(*ka.k, ka.attr, false);
+  KeyCtx ckx{pub.item, ka.attr.empty() ? ka.alg : JWT_ALG_NONE, &rc};
+  if (!(c.mode & 4))
   if (jwt_checker_setkey(ch, ka.attr.empty() ? ka.alg : JWT_ALG_NONE, pub.item)) { jwt_checker_free(ch); return "checker-setkey-refused"; }
   jwt_checker_time_leeway(ch, JWT_CLAIM_NBF, c.nbf_off > 0 ? c.nbf_off : 0);   // the token is not-before now+offset: allow it
   if (c.mode & 2) {   // the checker is not fresh: it has just rejected a damaged copy of this token and garbage (no error_clear)
     std::string dmg = c.token; dmg[dmg.size() / 2] = dmg[dmg.size() / 2] == 'A' ? 'B' : 'A';
     jwt_checker_verify(ch, dmg.c_str()); jwt_checker_verify(ch, "garbage"); }
+  if (c.mode & 4) jwt_checker_setcb(ch, key_then_read_cb, &ckx); else
   jwt_checker_setcb(ch, read_cb, &rc);
   int ret = jwt_checker_verify(ch, c.token.c_str());
   std::string msg = jwt_checker_error_msg(ch) ? jwt_checker_error_msg(ch) : "";
@@ -191,7 +201,7 @@ int main(int argc, char **argv) {
     if (v::shrink_exhausted()) return;
     Case c; c.cell = *UNI(0, (int)CELLS.size()); const KA &ka = CELLS[c.cell];
     c.sprov = *UNI(0, 2); c.vprov = *UNI(0, 2); if (gn_unsupported(ka)) c.sprov = c.vprov = 0;
-    c.mode = *UNI(0, 4); c.now = *rc::gen::element<long long>(1700000000LL, 0LL, 1LL, 4102444800LL, 1LL << 33); c.iat = *UNI(0, 2); c.nbf_off = *rc::gen::element<long>(0L, 0L, -5L, 30L, 3600L); c.exp_off = *rc::gen::element<long>(0L, 60L, 3600L, -1L, 1L << 31);
+    c.mode = *UNI(0, 8); c.now = *rc::gen::element<long long>(1700000000LL, 0LL, 1LL, 4102444800LL, 1LL << 33); c.iat = *UNI(0, 2); c.nbf_off = *rc::gen::element<long>(0L, 0L, -5L, 30L, 3600L); c.exp_off = *rc::gen::element<long>(0L, 60L, 3600L, -1L, 1L << 31);
     TreeStats ts; J h = gen_json(0, ts, true); int hd = ts.depth; J cl = gen_json(0, ts, true);
     json_object_del(h.p, "alg");   // the library forces alg; a user alg header is C10's business
     if (c.iat) json_object_del(cl.p, "iat"); if (c.nbf_off > 0) json_object_del(cl.p, "nbf"); if (c.exp_off > 0) json_object_del(cl.p, "exp");
